@@ -1823,3 +1823,166 @@ Proof.
     + exists exp2, Md2, Mb2. unfold vblock in *. cbn [fold_left]. rewrite map_app.
       rewrite <- (app_assoc acc), <- (app_assoc tr) in I2. rewrite <- (app_assoc done) in P2. unfold NS in I2. split. exact I2. exact P2.
 Qed.
+
+End U2.
+
+(* ---------- the initial state ---------- *)
+Lemma erd_plain_dict : forall l, erd (plain_dict l) = plain_dict l.
+Proof. intro l. unfold erd, plain_dict. rewrite map_map. reflexivity. Qed.
+
+Lemma er_init : forall bi ns, er (snd (init_state bi ns)) = snd (init_state bi ns).
+Proof.
+  intros bi ns. unfold init_state.
+  set (s0 := mkSt [(builtins_id, (KNormal, plain_dict bi)); (delayed_id, (KNormal, []))] 2 [] [] [] [] false 0 0).
+  assert (E0 : er s0 = s0). { unfold er, s0. cbn. rewrite erd_plain_dict. reflexivity. }
+  assert (G : forall ns ids s, er s = s ->
+            er (snd (fold_left (fun acc l => let '(ids, s) := acc in
+                                             let '(i, s') := new_scope s KNormal (plain_dict l) in (ids ++ [i], s')) ns (ids, s)))
+            = snd (fold_left (fun acc l => let '(ids, s) := acc in
+                                           let '(i, s') := new_scope s KNormal (plain_dict l) in (ids ++ [i], s')) ns (ids, s))).
+  { induction ns0 as [|l ns0 IH]; intros ids s E; cbn [fold_left]. exact E.
+    destruct (er_new_scope s KNormal (plain_dict l)) as [_ F2]. rewrite erd_plain_dict, E in F2.
+    destruct (new_scope s KNormal (plain_dict l)) as [i s1] eqn:En. cbn [snd] in F2. apply IH. symmetry. exact F2. }
+  specialize (G ns [builtins_id] s0 E0).
+  destruct (fold_left _ ns ([builtins_id], s0)) as [ids s1]. cbn [snd] in G.
+  pose proof (er_push s1 ids false false false) as Hp. rewrite G in Hp.
+  destruct (push s1 ids false false false) as [stk s2]. cbn [fst snd] in *. injection Hp as Hp. symmetry. exact Hp.
+Qed.
+
+(* ---------- the deferred checks at the end, with tracking on ---------- *)
+Lemma pairs_finish_fold : forall cur ds s,
+  pairs (fold_left (fun s d => let '(n, stk, ln) := d in check_load s cur stk n ln) ds s) = pairs s.
+Proof.
+  intros cur ds. induction ds as [|[[d stk] ln] ds IH]; intro s; cbn [fold_left]. reflexivity.
+  rewrite IH. apply pairs_check_load.
+Qed.
+
+(* what a check_load changes: marks and the missing list *)
+Definition SameBut (s s' : st) : Prop :=
+  scopes s' = scopes s /\ MarkExt (checkers s) (checkers s') /\ unused s' = unused s.
+Lemma SameBut_refl : forall s, SameBut s s.
+Proof. intro s. split. reflexivity. split. apply MarkExt_refl. reflexivity. Qed.
+Lemma SameBut_trans : forall a b c, SameBut a b -> SameBut b c -> SameBut a c.
+Proof. intros a b c (A1 & A2 & A3) (B1 & B2 & B3). split. congruence. split. eapply MarkExt_trans; eauto. congruence. Qed.
+Lemma SameBut_check_load : forall s cur stk n ln, SameBut s (check_load s cur stk n ln).
+Proof.
+  intros. unfold check_load. pose proof (needs_marks s stk n) as HM. destruct (needs s stk n) as [b s1]. cbn [snd] in HM.
+  destruct HM as (cs' & -> & M).
+  destruct (b && negb (has_star (with_checkers s cs') stk)).
+  - destruct (add_missing_spec (with_checkers s cs') cur ln n) as [E _]. rewrite E. split. reflexivity. split. exact M. reflexivity.
+  - split. reflexivity. split. exact M. reflexivity.
+Qed.
+Lemma SameBut_fold : forall cur ds s,
+  SameBut s (fold_left (fun s d => let '(n, stk, ln) := d in check_load s cur stk n ln) ds s).
+Proof.
+  intros cur ds. induction ds as [|[[d stk] ln] ds IH]; intro s; cbn [fold_left]. apply SameBut_refl.
+  eapply SameBut_trans. apply SameBut_check_load. apply IH.
+Qed.
+
+Lemma finish_marks : forall cur T x c ds s a stk ln pre post,
+  In (x :: a, stk, ln) ds -> stk = pre ++ T :: post ->
+  (forall j, In j post -> rootclosed (scope_dict s j) /\ dict_get (scope_dict s j) [x] = None) ->
+  (forall k v, In (k, v) (scope_dict s T) -> exists y, k = [y]) ->
+  dict_get (scope_dict s T) [x] = Some (Chk c) -> c < length (checkers s) ->
+  c_used (nth c (checkers (fold_left (fun s d => let '(n, stk, ln) := d in check_load s cur stk n ln) ds s)) ckd) = true.
+Proof.
+  intros cur T x c ds. induction ds as [|[[d stk0] ln0] ds IH]; intros s a stk ln pre post Hin Hstk Hpost Hk Hx Hc. contradiction.
+  cbn [fold_left]. destruct Hin as [E|Hin].
+  - injection E as -> -> ->. subst stk.
+    unfold check_load at 2. rewrite (needs_found s x a pre T post c Hpost Hk Hx). cbn [andb].
+    pose proof (SameBut_fold cur ds (mark_used s c)) as (_ & M & _). apply (me_used _ _ M).
+    unfold mark_used. cbn [checkers with_checkers]. rewrite mark_nth_same by exact Hc. reflexivity.
+  - pose proof (SameBut_check_load s cur stk0 d ln0) as (E1 & M1 & _).
+    assert (Esd : forall i, scope_dict (check_load s cur stk0 d ln0) i = scope_dict s i) by (intro i; unfold scope_dict; rewrite E1; reflexivity).
+    apply (IH _ a stk ln pre post Hin Hstk).
+    + intros j Hj. rewrite Esd. apply Hpost. exact Hj.
+    + intros k v. rewrite Esd. apply Hk.
+    + rewrite Esd. exact Hx.
+    + rewrite (me_len _ _ M1). exact Hc.
+Qed.
+
+(* ---------- unused_sound on stage 2 ---------- *)
+Theorem u2_unused_sound : forall bi ns p, u2_block p = true -> star_free bi ns = true -> imports_once bi ns p = true ->
+  NoDup (imp_events (bsrcs_block false p)) ->
+  forall l i, In (l, i) (snd (finder bi ns true p)) ->
+  forall ln n, ~ In (ln, n, Bound (BImp l i)) (pysem bi ns p).
+Proof.
+  intros bi ns p Hu Hsf Honce Hnd l i Hrep ln n Hread.
+  set (BS := bsrcs_block false p). set (I0 := concat ns ++ bi).
+  pose proof (imports_once_Once bi ns p Honce) as HO. fold BS I0 in HO.
+  destruct (init_inv2 bi ns p Hsf) as (exp0 & lm & Hown & HB & Estk & HI & Hm0 & HTd & Hd0 & HP0).
+  pose proof (er_init bi ns) as Eer.
+  unfold finder in Hrep. unfold pysem in Hread.
+  destruct (init_state bi ns) as [stk s0]. cbn [fst snd] in *. subst stk.
+  set (M0 := module_frame bi ns p) in *.
+  assert (HP : forall y, In y (l_P lm) -> In y I0).
+  { intros y Hy. apply HP0 in Hy. unfold I0. rewrite in_app_iff in *. tauto. }
+  assert (HB' : l_B lm = map fst BS) by (rewrite HB; reflexivity).
+  assert (Hck0 : checkers s0 = []) by (rewrite <- Eer; reflexivity).
+  assert (Hun0 : unused s0 = []) by (rewrite <- Eer; reflexivity).
+  assert (H30 : Inv3 BS I0 lm exp0 lm [] [] [] [] s0 [M0] [] [] (others I0) M0).
+  { constructor.
+    - rewrite Eer. exact HI.
+    - reflexivity.
+    - constructor.
+      + intros j k v _ Hin. apply (sv_raw _ (st_sinv _ _ _ _ _ (i_st _ _ _ _ _ _ _ _ _ HI)) j k v Hin).
+      + intros k v Hin. rewrite HTd in Hin. destruct Hin.
+      + intros x c. rewrite HTd. discriminate.
+      + intros x l0 i0 H. apply lookup_b_others_other in H. discriminate.
+      + intros x. rewrite HTd. discriminate.
+      + intros x l0 i0 Hf. left. apply final_import_in in Hf. apply (HO _ _ _ Hf).
+      + intros x l0 i0 H. apply lookup_b_others_other in H. discriminate.
+      + exact Hun0.
+      + intros ? ? ? ? [].
+    - reflexivity.
+    - reflexivity.
+    - reflexivity.
+    - intros x Hx. cbn [last] in Hx. rewrite Hown in Hx. destruct Hx. }
+  destruct (sem_block p [M0]) as [e1 r1] eqn:Es. cbn [snd] in Hread.
+  destruct (top_block BS I0 lm HO HP HB' p exp0 [] [] [] s0 [M0] [] (others I0) M0 [] [] Hu H30 eq_refl) with (e' := e1) (rds := r1)
+    as (exp1 & Md1 & Mb1 & I1 & P1).
+  { rewrite app_nil_r. reflexivity. } { unfold pairs. rewrite Hck0. reflexivity. } { exact Es. }
+  cbn [app] in I1, P1. fold BS in P1. set (s1 := vblock true p (stack_of [lm]) s0) in *.
+  pose proof I1 as [HI1 _ HU1 HEU1 Hfin1 Hdyn1 _]. cbn [is_nil] in Hdyn1.
+  (* the report: an unused checker of the top scope *)
+  apply sort_by_In in Hrep. unfold scan_unused, scan_node, finish_deferred in Hrep. fold s1 in Hrep.
+  set (sF := fold_left (fun s d => let '(n, stk, ln) := d in check_load s (stack_of [lm]) stk n ln) (deferred s1) s1) in *.
+  pose proof (SameBut_fold (stack_of [lm]) (deferred s1) s1) as (ES & ME & EU). fold sF in ES, ME, EU.
+  rewrite stack_top in Hrep. set (T := l_b lm) in *.
+  unfold pop in Hrep.
+  assert (EsdF : forall j, scope_dict (with_deferred sF []) j = scope_dict s1 j) by (intro j; unfold scope_dict; cbn [scopes with_deferred]; rewrite ES; reflexivity).
+  rewrite EsdF in Hrep. apply report_unused_spec in Hrep as [Hrep|(k & c0 & Hk & Hunused & Hl & Hi)].
+  { cbn [unused with_deferred] in Hrep. rewrite EU, (u_unused _ _ _ _ _ _ _ HU1) in Hrep. destruct Hrep. }
+  unfold checker_at in Hunused, Hl, Hi. cbn [checkers with_deferred] in Hunused, Hl, Hi. fold ckd in Hunused, Hl, Hi.
+  assert (Hc0 : c0 < length (checkers sF)).
+  { rewrite (me_len _ _ ME). destruct (u_top _ _ _ _ _ _ _ HU1 _ _ Hk) as [_ [D|(c' & D & Hlt)]]. discriminate. injection D as <-. exact Hlt. }
+  (* the read: its checker is used in the end *)
+  assert (Hused : exists c, c < length (checkers sF) /\ c_line (nth c (checkers sF) ckd) = l /\
+                            c_imp (nth c (checkers sF) ckd) = i /\ c_used (nth c (checkers sF) ckd) = true).
+  { destruct (u_reads _ _ _ _ _ _ _ HU1 ln n l i Hread) as [(c & Hc & A & B & C)|[Hfinal (a & stk' & ln' & Hin & pre & post & E & Hpost)]].
+    - exists c. unfold checker_at in A, B, C. fold ckd in A, B, C. rewrite (me_len _ _ ME), (me_line _ _ ME), (me_imp _ _ ME).
+      repeat split; auto. apply (me_used _ _ ME). exact C.
+    - (* deferred: the final check finds the checker in the top scope *)
+      pose proof (i_env _ _ _ _ _ _ _ _ _ HI1) as HE1. destruct e1 as [|f [|? ?]]; try contradiction. cbn in HEU1. subst f.
+      destruct HE1 as [HE1a HE1b]. rewrite Hfin1 in HE1a.
+      assert (Hdyn : lookup_b n Md1 = Some (BImp l i)).
+      { destruct (u_stab _ _ _ _ _ _ _ HU1 n l i Hfinal) as [Hn|Hs]; auto. exfalso.
+        assert (Hne : lookup_b n (rev BS ++ others I0) <> None) by congruence.
+        apply HE1a in Hne. rewrite HB in Hne. rewrite <- Hdyn1 in Hn. revert Hn. apply HE1b. exact Hne. }
+      destruct (u_mod2 _ _ _ _ _ _ _ HU1 n l i Hdyn) as (c & Hc & A & B).
+      assert (Hclt : c < length (checkers s1)).
+      { destruct (u_top _ _ _ _ _ _ _ HU1 _ _ (dict_get_In' _ _ _ Hc)) as [_ [D|(c' & D & Hlt)]]. discriminate. injection D as <-. exact Hlt. }
+      exists c. unfold checker_at in A, B. fold ckd in A, B. rewrite (me_len _ _ ME), (me_line _ _ ME), (me_imp _ _ ME).
+      split. exact Hclt. split. exact A. split. exact B.
+      apply (finish_marks (stack_of [lm]) T n c (deferred s1) s1 a stk' ln' pre post Hin E); auto.
+      + intros j Hj. split. apply rootclosed_er. apply (sv_root _ (st_sinv _ _ _ _ _ (i_st _ _ _ _ _ _ _ _ _ HI1))).
+        apply dict_get_none_er. destruct (has (er s1) j n) eqn:Eh; auto. exfalso. apply (Hpost j Hj).
+        apply (st_sub _ _ _ _ _ (i_st _ _ _ _ _ _ _ _ _ HI1)). exact Eh.
+      + intros k' v' Hin'. apply (u_top _ _ _ _ _ _ _ HU1 _ _ Hin'). }
+  destruct Hused as (c & Hc & A & B & C).
+  assert (Hndp : NoDup (map (fun ck => (c_line ck, c_imp ck)) (checkers sF))).
+  { change (map (fun ck => (c_line ck, c_imp ck)) (checkers sF)) with (pairs sF). unfold sF. rewrite pairs_finish_fold, P1. exact Hnd. }
+  assert (Ecc : c = c0).
+  { eapply (NoDup_map_nth _ _ (fun ck => (c_line ck, c_imp ck)) (checkers sF) ckd); eauto. cbn. congruence. }
+  subst c0. congruence.
+Qed.
